@@ -785,8 +785,8 @@ func (a *Authority) GenerateCertificateRevocationList() error {
 
 	// use a mutex to ensure only one CRL is generated at a time to avoid
 	// concurrency issues
-	a.crlMutex.Lock()
-	defer a.crlMutex.Unlock()
+	crlMutex.Lock()
+	defer crlMutex.Unlock()
 
 	crlInfo, err := crlDB.GetCRL()
 	if err != nil && !database.IsErrNotFound(err) {
